@@ -84,5 +84,5 @@ let () =
         let e = expr_of (parse_sexp sx) in
         let lit_str = mk_lit_str esc in
         let names _ = dec_str "95,95,73,78,86,65,76,73,68,95,83,67,79,80,69,95,78,65,77,69,95,95" in
-        enc_str (StrExpr.sx_value names lit_str e)
+        enc_str (StrExpr.sx_value names e)
     | _ -> "ERR args")
